@@ -33,9 +33,12 @@ MC_CFG = """SPECIFICATION Spec
 CONSTANTS NCalls = {n}
  VarTrees <- ConcTrees
  HeaderModes <- AllHdr
+ Reuse <- Bools
+ Deviations <- {dev}
 INVARIANT NoInterference
 INVARIANT OwnResponse
 INVARIANT CallerStateUntouched
+INVARIANT CallerVarsUntouched
 INVARIANT SpecHolds
 CHECK_DEADLOCK FALSE
 """
@@ -62,9 +65,13 @@ def run(tier, work, replay=None):
     v = Verdict("C11", tier)
     q = tier == "quick"
     out = work.dir / "cases.json"
-    res = run_tlc("Requests_MC", MC_CFG.format(n=2 if q else 3), work.sub("tlc"), env={"OUT_FILE": str(out), "TREESET": "small" if q else "full"},
+    res = run_tlc("Requests_MC", MC_CFG.format(n=2 if q else 3, dev="NoDev"), work.sub("tlc"), env={"OUT_FILE": str(out), "TREESET": "small" if q else "full"},
                   timeout=3000, coverage=q)
     tlc_must_pass(res, "Requests_MC")
+    # anti-vacuity: writing nulls into the walked containers (seeded change C11b) violates the spec's invariants
+    dev = run_tlc("Requests_MC", MC_CFG.format(n=2, dev="InPlace"), work.sub("tlc_dev"), env={"OUT_FILE": "", "TREESET": "small"}, timeout=3000)
+    if not ({"CallerVarsUntouched", "NoInterference"} & set(dev.invariant_violated)):
+        raise Machinery("anti-vacuity: in_place_nulling does not violate CallerVarsUntouched / NoInterference")
     v.add_tlc(res, f"Requests: interleavings of {2 if q else 3} calls + MultipartSpec over all trees")
     cases = json.loads(out.read_text())
     if any(not c["ok"] for c in cases):
@@ -76,6 +83,7 @@ def run(tier, work, replay=None):
     # histories: sequential with a shared caller dict; concurrent
     trees = [c["tree"] for c in cases]
     ups = [t for t in trees if by_tree[json.dumps(t)]["wire"]["kind"] == "multipart"]
+    nested_ups = [t for t in ups if '"D"' in json.dumps(t)]
     plain = [t for t in trees if by_tree[json.dumps(t)]["wire"]["kind"] == "json"]
     histories = []
     for k in range(30 if q else 200):
@@ -89,7 +97,20 @@ def run(tier, work, replay=None):
             if hdr == "own_ct" and w["kind"] == "multipart":
                 hdr = "own"          # overriding Content-Type of a multipart request is the caller breaking it: not explored
                 w = expected_wire(by_tree[json.dumps(t)]["wire"], hdr)
-            calls.append({"tree": t, "hdr": hdr, "ident": ident_of(w)})
+            calls.append({"tree": t, "hdr": hdr, "ident": ident_of(w), "reuse": False})
+        if k % 3 == 0:
+            # a retry: a later call passes the very same variables object as call 1 (an Upload inside a caller-owned dict)
+            t = rnd.choice(nested_ups)
+            for j in (0, rnd.randrange(1, n)):
+                w = expected_wire(by_tree[json.dumps(t)]["wire"], calls[j]["hdr"] if calls[j]["hdr"] != "own_ct" else "own")
+                calls[j] = {"tree": t, "hdr": calls[j]["hdr"] if calls[j]["hdr"] != "own_ct" else "own", "ident": ident_of(w), "reuse": j > 0}
+        # calls are told apart on the wire by (variables, headers): make them pairwise distinguishable
+        for j in range(1, len(calls)):
+            for alt in ["none", "own", "shared"]:
+                if calls[j]["ident"] not in [c["ident"] for c in calls[:j]]:
+                    break
+                calls[j]["hdr"] = alt
+                calls[j]["ident"] = ident_of(expected_wire(by_tree[json.dumps(calls[j]["tree"])]["wire"], alt))
         histories.append({"mode": mode, "calls": calls})
 
     def one(cl):
@@ -112,7 +133,7 @@ def run(tier, work, replay=None):
             continue
         for c, rec in zip(cases, o["single"]):
             n_eval += 1
-            feats = {"client": name, "kind": c["wire"]["kind"], "tree": c["tree"]}
+            feats = {"client": name, "kind": c["wire"]["kind"], "tree": c["tree"], "alias": bool(c.get("alias"))}
             if "error" in rec:
                 v.violation(feats, "call_failed:" + rec["error"].split(":")[0], rec)
                 continue
@@ -129,26 +150,29 @@ def run(tier, work, replay=None):
                     probs.append(k)
             if c["timeout"] and ob.get("timeout") != 3.5:
                 probs.append("kwargs_not_passed")
+            if rec.get("cvars") != c["tree"]:
+                probs.append("caller_variables_mutated")
             if probs:
                 v.violation(feats, "wire_differs:" + ",".join(probs), {"expected": want, "observed": ob})
-            tr = [{"e": "case", "calls": [{"tree": c["tree"], "hdr": "none"}]}, {"e": "wire", "c": 1, "obs": ob}, {"e": "ret", "c": 1, "got": 1}]
+            tr = [{"e": "case", "calls": [{"tree": c["tree"], "hdr": "none", "reuse": False}]}, {"e": "wire", "c": 1, "obs": ob},
+                  {"e": "ret", "c": 1, "got": 1, "cvars": rec.get("cvars")}]
             traces.append(tr)
             owners.append(feats)
         for h, hrec in zip(histories, o["histories"]):
             n_eval += len(h["calls"])
-            feats = {"client": name, "mode": h["mode"], "hdrs": [c["hdr"] for c in h["calls"]], "kinds": [by_tree[json.dumps(c["tree"])]["wire"]["kind"] for c in h["calls"]]}
+            feats = {"client": name, "mode": h["mode"], "hdrs": [c["hdr"] for c in h["calls"]], "reuse": any(c["reuse"] for c in h["calls"]), "kinds": [by_tree[json.dumps(c["tree"])]["wire"]["kind"] for c in h["calls"]]}
             crash = [e for e in hrec["events"] if e["e"] == "crash"]
             if crash:
                 v.violation(feats, "history_call_failed", {"events": crash, "calls": h["calls"]})
                 continue
             if not hrec["shared_clean"]:
                 v.violation(feats, "caller_headers_mutated", {"after": hrec["shared_after"], "calls": h["calls"]})
-            tr = [{"e": "case", "calls": [{"tree": c["tree"], "hdr": c["hdr"]} for c in h["calls"]]}]
+            tr = [{"e": "case", "calls": [{"tree": c["tree"], "hdr": c["hdr"], "reuse": c["reuse"]} for c in h["calls"]]}]
             for e in hrec["events"]:
                 if e["e"] == "wire":
                     tr.append({"e": "wire", "c": e["c"], "obs": e["obs"]})
                 else:
-                    tr.append({"e": "ret", "c": e["c"], "got": e["got"]})
+                    tr.append({"e": "ret", "c": e["c"], "got": e["got"], "cvars": e["cvars"]})
             tr.append({"e": "shared", "clean": bool(hrec["shared_clean"])})
             traces.append(tr)
             owners.append(feats)
